@@ -89,7 +89,14 @@ def run_families(run, fams, model_args=()):
     """fams: list of (family, n, seed).  Returns (results, cover, summary, scripts, traces)."""
     results, cover, summary, scripts, traces = [], {}, {}, {}, {}
     for fam, n, seed in fams:
-        rc, path, sc, tr = harness(["-mode", "batch", "-family", fam, "-n", n, "-seed", seed])
+        if fam.startswith("corpus:"):
+            cpath = os.path.join(C.VERIF, fam[7:])
+            if not os.path.exists(cpath):
+                continue
+            n = len([l for l in open(cpath) if l.strip()])
+            rc, path, sc, tr = harness(["-mode", "script", "-file", cpath])
+        else:
+            rc, path, sc, tr = harness(["-mode", "batch", "-family", fam, "-n", n, "-seed", seed])
         rcm, out = _model(path, model_args)
         os.unlink(path)
         r, cv, sm, _ = parse_model(out)
